@@ -53,7 +53,10 @@ template<> struct Rec<sym::Real> {
   std::string entry; std::vector<Item> items;
   std::map<std::string,double>* input = nullptr;
   S var(const std::string& n, double w){ return S::var(entry+":"+n, w); }
+  S rat(long p, long q){ return q==1 ? S((double)p) : S((double)p)/S((double)q); }
   void eq(const std::string& n, const S& l, const S& r){ items.push_back(Item{'E',n,l.id,r.id,l.val(),r.val(),""}); }
+  void approx(const std::string& n, const S& l, const S& r, const std::string& cls){ items.push_back(Item{'P',n,l.id,r.id,l.val(),r.val(),cls}); }
+  void force_generic(bool on){ sym::ctx().force_eps = on?1:0; }
   void le(const std::string& n, const S& l, const S& r){ items.push_back(Item{'L',n,l.id,r.id,l.val(),r.val(),""}); }
   void lt(const std::string& n, const S& l, const S& r){ items.push_back(Item{'T',n,l.id,r.id,l.val(),r.val(),""}); }
   void out(const std::string& n, const S& v){ items.push_back(Item{'O',n,v.id,-1,v.val(),0,""}); }
@@ -68,7 +71,10 @@ template<class F> struct RecC {
   std::string entry; std::vector<Item> items;
   std::map<std::string,double>* input = nullptr;
   S var(const std::string& n, double w){ if (input){ auto it=input->find(entry+":"+n); if(it!=input->end()) return (F)it->second; } return (F)w; }
+  S rat(long p, long q){ return (F)((double)p/(double)q); }
   void eq(const std::string& n, const S& l, const S& r){ items.push_back(Item{'E',n,-1,-1,(double)l,(double)r,""}); }
+  void approx(const std::string& n, const S& l, const S& r, const std::string& cls){ items.push_back(Item{'P',n,-1,-1,(double)l,(double)r,cls}); }
+  void force_generic(bool){}
   void le(const std::string& n, const S& l, const S& r){ items.push_back(Item{'L',n,-1,-1,(double)l,(double)r,""}); }
   void lt(const std::string& n, const S& l, const S& r){ items.push_back(Item{'T',n,-1,-1,(double)l,(double)r,""}); }
   void out(const std::string& n, const S& v){ items.push_back(Item{'O',n,-1,-1,(double)v,0,""}); }
@@ -111,14 +117,14 @@ inline int run_main(int argc, char** argv){
     if(!std::regex_match(e.first,re)) continue;
     f<<"ENTRY "<<e.first<<"\n";
 #if HSYM
-    auto& C=sym::ctx();
+    auto& C=sym::ctx(); C.eps_value=manif::Constants<sym::Real>::eps.val(); C.force_eps=0;
     struct St{ bool taken, flipped; }; std::vector<St> stack;
     struct PathRec{ std::string outcome, msg; std::vector<sym::Decision> pc; std::vector<Item> items; };
     std::vector<PathRec> paths; bool truncated=false;
     while(true){
       std::vector<bool> pre; for(auto&s:stack) pre.push_back(s.taken);
       C.reset_path(pre);
-      Rec<HS> rec; rec.entry=e.first; PathRec pr; pr.outcome="ret";
+      Rec<HS> rec; rec.entry=e.first; PathRec pr; pr.outcome="ret"; C.force_eps=0;
       try{ e.second(rec); }
       catch(sym::PathLimit&){ pr.outcome="limit"; }
       catch(manif::invalid_argument& ex){ pr.outcome="raise:manif::invalid_argument"; pr.msg=ex.what(); }
@@ -146,6 +152,7 @@ inline int run_main(int argc, char** argv){
         else if(it.kind=='A') f<<"A "<<it.l<<" "<<it.text<<" "<<it.r<<"\n";
         else if(it.kind=='N') f<<"NOTE "<<it.name<<" "<<it.text<<"\n";
         else if(it.kind=='O') f<<"OUT "<<it.name<<" "<<it.l<<"\n";
+        else if(it.kind=='P') f<<"AP "<<it.name<<" "<<it.l<<" "<<it.r<<" "<<it.text<<"\n";
         else f<<(it.kind=='E'?"EQ ":it.kind=='L'?"LE ":"LT ")<<it.name<<" "<<it.l<<" "<<it.r<<"\n";
       }
       f<<"ENDPATH\n";
@@ -161,6 +168,7 @@ inline int run_main(int argc, char** argv){
     for(auto&it:rec.items){
       if(it.kind=='N') f<<"NOTE "<<it.name<<" "<<it.text<<"\n";
       else if(it.kind=='O') f<<"OUT "<<it.name<<" "<<hexd(it.lv)<<"\n";
+      else if(it.kind=='P') f<<"AP "<<it.name<<" "<<hexd(it.lv)<<" "<<hexd(it.rv)<<" "<<it.text<<"\n";
       else if(it.kind=='E'||it.kind=='L'||it.kind=='T') f<<(it.kind=='E'?"EQ ":it.kind=='L'?"LE ":"LT ")<<it.name<<" "<<hexd(it.lv)<<" "<<hexd(it.rv)<<"\n";
     }
     f<<"ENDPATH\n";
